@@ -695,7 +695,7 @@ func TestC25(t *testing.T) {
 	r.Rule("one case = one plugin message through a live proxy session; a session = (protocol from {340,754,763,764,767,775}, registrar contents from {modern+legacy, modern only, none}) x phases {config (>=764), play} x directions {client->backend, backend->client}; per message: kind {custom on registrar channel, custom on free channel, register, unregister}, size {0,1,13,40,200,2000,32767,70000 (clientbound)}, modern/legacy channel name, handler decision {allow, deny, default}; distinct = (protocol, phase, direction, kind, size class, decision, registrar, name style)")
 	r.Assume("the fake peers frame with the harness's own codec and decode plugin message packets with Gate's packet structs; joining is by a unique token in the body (or in a per-message channel for empty bodies); completeness by markers + event.Manager.Wait(), see file comment")
 	rng := r.Rng("sessions")
-	sessions := r.N(360, 12000)
+	sessions := r.N(360, 9000)
 	per := r.N(10, 12)
 	protos := []proto.Protocol{340, 754, 763, 764, 767, 775}
 	modes := []string{"both", "modern", "none", "both"}
@@ -789,8 +789,9 @@ func (s *session) run(per int) {
 		// backendTransitionSessionHandler (JoinGame is then relayed raw by the configuration
 		// handler and the join never completes, or the handler's Deactivated runs before its
 		// Activated and the backend is disconnected right after the join). That race is outside
-		// this property; a real backend is at least a network round trip away, so the fake one
-		// waits a moment before JoinGame.
+		// this property (and was repaired meanwhile by "install the transition handler before
+		// acknowledging the backend's configuration"); a real backend is at least a network
+		// round trip away, so the fake one waits a moment before JoinGame.
 		if s.gc.AwaitStage(e2e.StageJoin, e2e.Watchdog) {
 			time.Sleep(3 * time.Millisecond)
 		}
